@@ -301,8 +301,9 @@ def _edits():
     def e_add_group(m, g): m.add_groups([Group("grp3", members=[m.reactions[0], m.genes[0]])])
     @reg
     def e_add_cons(m, g):
-        v = m.problem.Variable("extra_v", lb=-1, ub=1)
-        c = m.problem.Constraint(m.reactions[-1].flux_expression + v, lb=-2, ub=2, name="extra_c")
+        k = g.randrange(10 ** 6)   # unique names: the same edit may occur twice in a sequence
+        v = m.problem.Variable(f"extra_v{k}", lb=-1, ub=1)
+        c = m.problem.Constraint(m.reactions[-1].flux_expression + v, lb=-2, ub=2, name=f"extra_c{k}")
         m.add_cons_vars([v, c])
     @reg
     def e_remove_user_cons(m, g): m.remove_cons_vars([m.constraints["uc"], m.variables["uv"]])
@@ -648,7 +649,8 @@ def case_reaction(mseed, mode, op, i, j):
                 met.notes["nested"]["k"].append(5)
                 met.annotation["kegg"].append("Z")
                 met.id = met.id + "_edited"
-            n.add_metabolites({sorted(n._metabolites, key=lambda x: x.id)[0]: 1.0})
+            if n._metabolites:   # a sum may cancel to the empty reaction
+                n.add_metabolites({sorted(n._metabolites, key=lambda x: x.id)[0]: 1.0})
             n.gene_reaction_rule = "gQ"
             for g in n._genes:
                 g.functional = False
@@ -665,7 +667,8 @@ def case_reaction(mseed, mode, op, i, j):
                 met.name = "edited2"
                 met.notes["nested"]["k"].append(6)
                 met.annotation["refs"][0][1] = "changed"
-            r1.add_metabolites({sorted(r1._metabolites, key=lambda x: x.id)[0]: 1.0})
+            if r1._metabolites:
+                r1.add_metabolites({sorted(r1._metabolites, key=lambda x: x.id)[0]: 1.0})
             r1.gene_reaction_rule = "gP or gQ"
         except Exception as e:  # noqa
             pass
